@@ -216,7 +216,7 @@ def _attempt_type_coercion(
             # Underflow is lossy as well: a literal with a non-zero mantissa
             # (e.g. "1e-400") must not be turned into 0.0
             mantissa = value_stripped.lower().split("e")[0]
-            if coerced == 0 and any(ch in "123456789" for ch in mantissa):
+            if coerced == 0 and any(ch.isdecimal() and int(ch) != 0 for ch in mantissa):
                 return value, False
 
         # Log the repair (I4 compliance)
